@@ -93,8 +93,7 @@ def run(pid, tier, seed, replay):
                              coro=0.7, max_cbs=4) for _ in range(3 if quick else 10)]
     fam = [m for m in fam if any(cb["coro"] for cb in m["classes"][0]["cbs"])] or fam
     consts = {"NI": 1, "MaxCalls": 2, "MaxFails": 1, "MaxActs": 1}
-    ec.mc_run(chk, fam, consts, required=("MCBegin", "MCEnd", "MCAdvance", "MCLoopPop"), label="async family")
-    hs = ec.hist_scenarios(chk, fam, consts, limit=800 if quick else 10000)
+    _cov, hs = ec.mc_run(chk, fam, consts, required=("MCBegin", "MCEnd", "MCAdvance", "MCLoopPop"), label="async family", hist_limit=800 if quick else 10000)
     ec.run_validate(chk, hs, "async: spec-behaviour replay", shards=4 if quick else 12)
     # twins
     results = {}
